@@ -534,3 +534,60 @@ RULES = [
 
 
 RULES.append(("C11.STATECELL", "the state that is displayed and stepped obeys the NaN rule of the stack cell (shared with C01.NAN): NaN is stored on a non-empty stack and never at the bottom of an empty one", p_c01.rule_nan))
+
+
+def rule_showstate(ctx, R):
+    """what `state` prints is the whole state, in a fixed order: the selected stack, then every stack of the map,
+    ordered by its number, with its index and all its values"""
+    from .templates import templates_of
+    fb = ctx.fb
+    name = "<core::state::UnOptState as core::fmt::Debug>::fmt"
+    cands = [n for n in fb.bodies if n.endswith("UnOptState as core::fmt::Debug>::fmt") or n.endswith("UnOptState as std::fmt::Debug>::fmt")]
+    if not R.anchor(len(cands) == 1, "unoptstate_debug", "impl Debug for UnOptState"):
+        return
+    b = fb.bodies[cands[0]]
+    R.analyse(b.name)
+    roles = Roles(b, fb, param_roles={1: "SELF", 2: "F"})
+    names = [callee_name(t["f"], fb) for _, t in b.calls()]
+    SELECT = ("filter", "filter_map", "skip", "skip_while", "take", "take_while", "step_by", "rev", "dedup", "retain", "truncate", "pop", "remove", "nth", "last", "first")
+    sel = sorted({n for n in names if n.rsplit("::", 1)[-1] in SELECT})
+    R.check(not sel, "showstate:all_stacks", "every stack of the state is listed (no selecting adapter): %s" % sel, b.span)
+    sorts = [(bi, t) for bi, t in b.calls() if callee_name(t["f"], fb).rsplit("::", 1)[-1] in ("sort_by", "sort_unstable_by", "sort_by_key", "sort_unstable_by_key", "sort", "sort_unstable")]
+    if R.anchor(len(sorts) == 1, "showstate:sort", "the sort that fixes the order of the listing (the map iterates in arbitrary order)"):
+        sb_, st_ = sorts[0]
+        kind = callee_name(st_["f"], fb).rsplit("::", 1)[-1]
+        R.check("HashMap::iter(SELF.stack)" in roles.of_operand(st_["args"][0], sb_) or "SELF.stack" in roles.of_operand(st_["args"][0], sb_), "showstate:sort_source", "the sorted sequence is the state's stack map: %s" % roles.of_operand(st_["args"][0], sb_)[:80], st_["span"]["at"])
+        keys = []
+        for c in fb.closures_of(b):
+            cr = Roles(c, fb, param_roles={i: "P%d" % i for i in range(1, c.argc + 1)})
+            ccfg = normal_cfg(c)
+            for r_ in ccfg.returns:
+                keys.append(cr.of_origin(cr.org.of_place({"l": 0, "proj": []}, r_, "t")))
+        if kind in ("sort", "sort_unstable"):
+            ok = True
+        elif "key" in kind:
+            ok = keys in (["P2.0"], ["COPY(P2.0)"])
+        else:
+            ok = len(keys) == 1 and keys[0] in ("Ord::cmp(P2.0,P3.0)", "UNWRAP(PartialOrd::partial_cmp(P2.0,P3.0))", "PartialOrd::partial_cmp(P2.0,P3.0)")
+        R.check(ok, "showstate:numeric_order", "stacks are listed in the order of their numbers (the stack index itself is the sort key): %s %s" % (kind, keys), st_["span"]["at"])
+    try:
+        ts = templates_of(b, fb, roles.org)
+    except Exception as e:
+        R.fail("showstate:templates", "templates cannot be recovered: %s" % e, b.span)
+        return
+    sk = [t.skeleton() for t in ts]
+    R.check(any("current stack: {0}" in x for x in sk) and any("stack {0}: {1}" in x for x in sk), "showstate:lines", "the listing has the selected stack and one line per stack with index and contents: %s" % sk, b.span)
+    for t in ts:
+        if "current stack" in t.skeleton():
+            R.check(roles.of_origin(t.args[0]) == "SELF.cur", "showstate:cur", "the selected stack shown is the state's: %s" % roles.of_origin(t.args[0]), t.where)
+        if t.skeleton().startswith("stack {0}: {1}"):
+            rs = [roles.of_origin(a) for a in t.args]
+            R.check(rs[0].endswith(".0") and rs[1].endswith(".1") and rs[0][:-2] == rs[1][:-2] and t.kinds == ["display", "debug"], "showstate:pairs", "each line shows a stack's own index and its own contents: %s" % rs, t.where)
+
+
+def rule_step(ctx, R):
+    return p_c01.rule_arms(ctx, R)
+
+
+RULES.append(("C11.SHOWSTATE", "`state` prints the selected stack and every stack in the order of their numbers, each with its own contents", rule_showstate))
+RULES.append(("C11.STEP", "the command a step executes is the language's command: six arms of execute_one equal the language table (shared with C01.ARM)", rule_step))
